@@ -525,8 +525,27 @@ def e2f(fb, rep):
                 if tc & ec.reachable(true_t, avoid_blocks=[false_t]) and cl & ec.reachable(false_t, avoid_blocks=[true_t]) \
                         and not (tc & ec.reachable(false_t, avoid_blocks=[true_t])):
                     ok = True
-        if ok:
-            rep.ok(R, "emit_call: tail_position -> TailCall, otherwise Call")
+        # exactness (added after seed C07-4): with the flag fixed, a path walk with constant propagation must reach the construction of
+        # exactly one of the two instructions -- a further condition on the true side (`tail_position && <something>`) demotes tail
+        # calls to ordinary calls, which changes no result and makes some tail-recursive loops grow the stack
+        from . import r12f
+        built = {}
+        for flag in (0, 1):
+            got = set()
+
+            def on_block(bb, env, got=got):
+                for st in ec.blocks[bb]["s"]:
+                    if st[0] == "=" and st[2][0] == "agg" and st[2][1][0] == "adt" and st[2][1][1] == "gluon_vm::types::Instruction":
+                        got.add(st[2][1][2])
+                return None
+            r12f._walk(ec, {3: flag}, on_block, lambda bb, env: None)
+            built[flag] = got
+        exact = built[1] == {"TailCall"} and built[0] == {"Call"}
+        if ok and exact:
+            rep.ok(R, "emit_call: tail_position -> TailCall, otherwise Call (and nothing else decides)")
+        elif ok:
+            rep.violation(R, "emit-call-demotes-tail-calls", "emit_call with tail_position set can also emit %s: a condition besides the flag decides, so some calls in tail position "
+                          "keep their caller's frame (unbounded stack for tail-recursive loops of that shape)" % sorted(built[1] - {"TailCall"}), ec.where())
         else:
             rep.violation(R, "emit-call-shape", "emit_call no longer selects TailCall exactly when tail_position is set", ec.where())
 
